@@ -240,12 +240,13 @@ func (w *world) senderTerm(s string) string {
 	if s == "" {
 		return "SenderEmpty"
 	}
-	id, err := peer.IDB58Decode(s)
-	if err != nil {
-		return "SenderBadID"
+	var id peer.ID
+	var err error
+	if p, _ := hx.Catch(func() { id, err = peer.IDB58Decode(s) }); p || err != nil {
+		return "SenderBadID" // a panic here is reported by the ExtractAndVerify call itself
 	}
-	pk, err := id.ExtractPublicKey()
-	if err != nil {
+	var pk crypto.PubKey
+	if p, _ := hx.Catch(func() { pk, err = id.ExtractPublicKey() }); p || err != nil {
 		return "SenderBadKey"
 	}
 	raw, _ := pk.Raw()
@@ -496,6 +497,62 @@ func (w *world) honest(t tuple) *peer.SignedMsg {
 	return m
 }
 
+// numeric extremes for every length / varint field
+var varintExtremes = []uint64{0, 1, 127, 128, 1<<31 - 1, 1 << 31, 1<<32 - 1, 1 << 32, 1<<63 - 1, 1 << 63, 1<<64 - 1}
+
+// uvarint encodes v minimally, or (long = true) padded with continuation bytes to the 10-byte form.
+func uvarint(v uint64, long bool) []byte {
+	var o []byte
+	for v >= 0x80 {
+		o = append(o, byte(v)|0x80)
+		v >>= 7
+	}
+	o = append(o, byte(v))
+	if long {
+		for len(o) < 10 {
+			o[len(o)-1] |= 0x80
+			o = append(o, 0)
+		}
+	}
+	return o
+}
+
+// trailing returns too few / exact / extra bytes for a declared length n (capped: the point is the header).
+func (w *world) trailing(n uint64, content []byte) []byte {
+	exact := content
+	if n <= 200 {
+		exact = make([]byte, n)
+		copy(exact, content)
+	}
+	switch w.c.Rng.Intn(4) {
+	case 0:
+		return nil
+	case 1:
+		if len(exact) > 0 {
+			return exact[:len(exact)-1]
+		}
+		return nil
+	case 2:
+		return exact
+	}
+	return append(clone(exact), w.c.RandBytes(1+w.c.Rng.Intn(3))...)
+}
+
+// extremeID: multihash bytes whose code and / or digest-length varints take extreme values.
+func (w *world) extremeID(k int) []byte {
+	r := w.c.Rng
+	code, dlen := uint64(0), varintExtremes[r.Intn(len(varintExtremes))]
+	switch r.Intn(4) {
+	case 0:
+		code = varintExtremes[r.Intn(len(varintExtremes))]
+		dlen = uint64(len(w.pubMar[k]))
+	case 1:
+		code = varintExtremes[r.Intn(len(varintExtremes))]
+	}
+	id := append(uvarint(code, r.Intn(2) == 0), uvarint(dlen, r.Intn(2) == 0)...)
+	return append(id, w.trailing(dlen, w.pubMar[k])...)
+}
+
 // aliasID builds a different byte string that decodes to the same public key
 // (non-minimal varint in the multihash header), base58 encoded.
 func (w *world) aliasID(k int, variant int) string {
@@ -646,6 +703,10 @@ func tampers() []tamper {
 			return true
 		}},
 		{"sender-empty", func(w *world, t tuple, m *peer.SignedMsg, ctx *[]byte) bool { m.FromPeerId = ""; return true }},
+		{"sender-varint-extremes", func(w *world, t tuple, m *peer.SignedMsg, ctx *[]byte) bool {
+			m.FromPeerId = b58.Encode(w.extremeID(t.k))
+			return true
+		}},
 		{"sender-alias-encoding", func(w *world, t tuple, m *peer.SignedMsg, ctx *[]byte) bool {
 			m.FromPeerId = w.aliasID(t.k, w.c.Rng.Intn(3))
 			return true
@@ -890,10 +951,43 @@ func c01(c *hx.Ctx, w *world) {
 				wire = append(clone(wire[:p]), wire[p+1:]...)
 			}
 			how += "+byte-inserted-or-removed"
-		default: // huge length prefix / group tags
-			wire = append([]byte{0x0a, 0xff, 0xff, 0xff, 0xff, 0x0f}, wire...)
-			if c.Rng.Intn(2) == 0 {
-				wire = []byte{0x0b, 0x0c}
+		default: // extreme values in the length prefixes / hash-type varint, group tags
+			v := varintExtremes[c.Rng.Intn(len(varintExtremes))]
+			long := c.Rng.Intn(2) == 0
+			switch c.Rng.Intn(6) {
+			case 0: // from_peer_id / data length prefix
+				tag := []byte{0x0a, 0x1a}[c.Rng.Intn(2)]
+				fld := append([]byte{tag}, uvarint(v, long)...)
+				fld = append(fld, w.trailing(v, []byte(m.FromPeerId))...)
+				if c.Rng.Intn(2) == 0 {
+					wire = append(fld, wire...)
+				} else {
+					wire = append(wire, fld...)
+				}
+				how += fmt.Sprintf("+length-prefix-%d", v)
+			case 1: // signature message length prefix
+				fld := append([]byte{0x12}, uvarint(v, long)...)
+				wire = append(wire, append(fld, w.trailing(v, []byte{0x10, 0x01})...)...)
+				how += fmt.Sprintf("+signature-length-prefix-%d", v)
+			case 2: // inside the signature: pub_key / sig_data length prefix
+				inner := append([]byte{[]byte{0x0a, 0x1a}[c.Rng.Intn(2)]}, uvarint(v, long)...)
+				inner = append(inner, w.trailing(v, m.GetSignature().GetSigData())...)
+				wire = append(wire, append(append([]byte{0x12}, uvarint(uint64(len(inner)), false)...), inner...)...)
+				how += fmt.Sprintf("+inner-length-prefix-%d", v)
+			case 3: // hash type varint (second signature field is merged: overrides the hash type)
+				inner := append([]byte{0x10}, uvarint(v, long)...)
+				wire = append(wire, append(append([]byte{0x12}, uvarint(uint64(len(inner)), false)...), inner...)...)
+				how += fmt.Sprintf("+hash-type-varint-%d", v)
+			case 4: // sender id with extreme multihash varints, re-marshalled
+				m2 := cloneMsg(m)
+				m2.FromPeerId = b58.Encode(w.extremeID(t.k))
+				wire, _ = m2.MarshalVT()
+				how += "+sender-varint-extremes"
+			default:
+				wire = append([]byte{0x0a, 0xff, 0xff, 0xff, 0xff, 0x0f}, wire...)
+				if c.Rng.Intn(2) == 0 {
+					wire = []byte{0x0b, 0x0c}
+				}
 			}
 			how += "+bad-length-or-group"
 		}
